@@ -10,7 +10,25 @@
 (*              fixtures (arbitrary keys: no kind-directed Norm) use the kind-free       *)
 (*              WeakOK: nothing invented, nothing changed, only zero-ish values or       *)
 (*              $ref siblings lost                                                       *)
-(*   j2 ja jb ji   every further trip succeeds and reproduces j1 exactly.                *)
+(*   j2 ja jb ji   every further trip succeeds and reproduces j1 exactly;                 *)
+(*   ju jyu jp jr jl  (document lines) so does every other reader with a fresh receiver: *)
+(*              json.Unmarshal / yaml.Unmarshal into an openapi3.T without a loader,     *)
+(*              LoadFromDataWithPath, LoadFromIoReader, LoadFromURI (the root read       *)
+(*              through ReadFromURIFunc); UnmarshalJSON of openapi2.T;                   *)
+(*   jm jy jv   and every other writer of the parsed input: the MarshalJSON method, the  *)
+(*              value MarshalYAML hands to a YAML encoder, the T by value;               *)
+(*   jf jk      and the YAML reader on other spellings of the input: flow style (the     *)
+(*              JSON text behind a comment line), all-digit map keys unquoted;           *)
+(*   jo         and the YAML reader with the option IncludeOrigin on;                    *)
+(*   history lines (line.hist.entry # "fresh", DocModel "Receivers and entry points"):   *)
+(*   prior      the prior documents are the ones the spec names and parse / fail as the  *)
+(*              spec says (realiser guard);                                              *)
+(*   jh         JSON of the ONE receiver after the prior documents and then the document *)
+(*              under test were parsed into it = j1: the earlier content has no influence. *)
+(*   kind-level lines (entry "kind" / "wrap", DocModel "Kind-level receivers"): the bare *)
+(*   object of the case through a value of the kind's own Go type or of its reference    *)
+(*   wrapper type: kparse/kfirst the fresh value parses it and serialises it within the   *)
+(*   first-trip contract read at that kind; prior as above; jh = k1.                      *)
 (* Every failed conjunct of every line is written to violations.ndjson with its finding  *)
 (* class; a j1 that differs from the L2 model's prediction is a fidelity warning.        *)
 EXTENDS FindingsC03, Json, CSV
@@ -38,22 +56,54 @@ Generated(line) == line.d.mode # "fixture"
 (* timestamps and all): only the later trips are judged                                                   *)
 FirstOK(line) == IF Generated(line) THEN FirstTripOK(line.ver, line.in, line.obs.j1.v)
                  ELSE line.d.src = "yaml" \/ WeakOK(line.obs.j1.v, line.in)
-Later(line) == {"j2", "ja", "ji"} \cup (IF "jb" \in DOMAIN line.obs THEN {"jb"} ELSE {})
+IsHist(line) == line.hist.entry # "fresh"
+IsKindLine(line) == line.hist.entry \in {"kind", "wrap"}
+(* what the later trips of a line must reproduce: j1, on kind-level lines k1 (the bare object through a fresh value) *)
+BaseName(line) == IF IsKindLine(line) THEN "k1" ELSE "j1"
+Base(line) == line.obs[BaseName(line)]
+(* the trips the spec demands of a line (a trip the harness did not record is a failed trip) *)
+DocTrips(ver) == IF ver = 3 THEN {"j2", "ja", "jb", "ji", "jf", "jk", "ju", "jyu", "jp", "jr", "jl", "jm", "jy", "jv", "jo"}
+                 ELSE {"j2", "ja", "ji", "jf", "jk", "ju", "jv", "jm"}
+Later(line) == IF IsHist(line) THEN {"jh"} ELSE DocTrips(line.ver)
+KPriorOK(line) ==
+   /\ line.hist.entry \in KindEntries(line.d.kind)
+   /\ Len(line.obs.pr) = Len(line.hist.prior)
+   /\ \A i \in DOMAIN line.hist.prior :
+         LET p == line.hist.prior[i] IN
+         /\ p.name \in KPriorNames(line.d.kind, line.hist.entry) /\ Same(KPriorDoc(line.d.kind, p.name), p.doc)
+         /\ line.obs.pr[i]
+(* the bare object through a fresh value of its own type: the first-trip contract at the kind's level *)
+KFirstOK(line) == Between(Walk("norm", line.d.kind, line.hist.frag), line.obs.k1.v, line.hist.frag)
+PriorOK(line) ==
+   IF IsKindLine(line) THEN KPriorOK(line) ELSE
+   /\ line.hist.entry \in HistEntries(line.ver)
+   /\ Len(line.obs.pr) = Len(line.hist.prior)
+   /\ \A i \in DOMAIN line.hist.prior :
+         LET p == line.hist.prior[i] IN
+         /\ p.name \in PriorNames(line.ver) /\ Same(PriorDoc(line.ver, p.name), p.doc)
+         /\ line.obs.pr[i] = PriorParses(p.name)
 
 Failed(line) ==
    (IF Same(line.c, line.in) THEN {} ELSE {"realised"})
    \cup (IF ~line.obs.j1.ok THEN {"parse"}
          ELSE (IF FirstOK(line) THEN {} ELSE {"first"})
-              \cup {n \in Later(line) : ~line.obs[n].ok \/ line.obs[n].v # line.obs.j1.v})
+              \cup (IF IsHist(line) /\ ~PriorOK(line) THEN {"prior"} ELSE {})
+              \cup (IF IsKindLine(line) /\ ~Base(line).ok THEN {"kparse"}
+                    ELSE (IF IsKindLine(line) /\ ~KFirstOK(line) THEN {"kfirst"} ELSE {})
+                         \cup {n \in Later(line) : n \notin DOMAIN line.obs \/ ~line.obs[n].ok \/ line.obs[n].v # Base(line).v}))
 
 (* where the failed trip first differs: first: vs the input; later trips: vs j1 *)
 At(line, f) ==
    CASE f = "first" -> Diff(line.in, line.obs.j1.v)
-     [] f \in {"j2", "ja", "jb", "ji"} -> IF line.obs[f].ok THEN Diff(line.obs.j1.v, line.obs[f].v) ELSE <<"!" \o line.obs[f].err>>
+     [] f \in DocTrips(2) \cup DocTrips(3) \cup {"jh"} ->
+           IF f \notin DOMAIN line.obs THEN <<"!not_recorded">>
+           ELSE IF line.obs[f].ok THEN Diff(Base(line).v, line.obs[f].v) ELSE <<"!" \o line.obs[f].err>>
+     [] f = "kfirst" -> Diff(line.hist.frag, line.obs.k1.v)
+     [] f = "kparse" -> <<"!" \o line.obs.k1.err>>
      [] f = "parse" -> <<"!" \o line.obs.j1.err>>
      [] OTHER -> <<>>
 Report(line, f) ==
-   [case |-> line.case, d |-> line.d, ver |-> line.ver, doc |-> line.c, ext |-> line.ext, failed |-> f, at |-> At(line, f),
+   [case |-> line.case, d |-> line.d, ver |-> line.ver, doc |-> line.c, ext |-> line.ext, hist |-> line.hist, failed |-> f, at |-> At(line, f),
     class |-> Class(line, f)]
 
 LineOK(line) ==
